@@ -375,6 +375,7 @@ func (c15) Gates(tier string, m map[string]int64) []rt.Gate {
 		rt.GateMin("BETWEEN with arithmetic trees as bounds", m, "between_with_arithmetic_bounds", 200),
 		rt.GateMin("filters naming a backquoted select field (printed form re-parsed under the same field list)", m, "named_field_filters", 200),
 		rt.GateMin("filters shown by Explain() run as statements of their own", m, "shown_filters", 200),
+		rt.GateMin("statement twins differing only in the letter case inside literals", m, "case_twins_compared", 100),
 		rt.GateMin("flat sequences compared", m, "flat_compared", 1000),
 		rt.GateMin("random trees compared", m, "tree_compared", 1000),
 		rt.GateMin("re-parse fixpoints checked", m, "fixpoints", 2000),
@@ -454,6 +455,39 @@ func (k c15) betweenBounds(c *rt.Ctx) {
 	c.Rec.Inc("between_with_arithmetic_bounds")
 	c.Rec.Inc("tree_compared")
 	k.compare(c, tree, style.Print(tree), "tree")
+	if r.Chance(1, 4) {
+		// the same statement text up to the letter case INSIDE its literals, parsed right after:
+		// each tree carries its own statement's literals
+		twin := tree.Clone()
+		changed := false
+		twin.Walk(func(n *gen.Node) {
+			if n.K == gen.KStr && n.S != "" {
+				if sw := c15SwapCase(n.S); sw != n.S {
+					n.S = sw
+					changed = true
+				}
+			}
+		})
+		if changed {
+			c.Rec.Inc("case_twins_compared")
+			fixed := gen.Style{Paren: 2}
+			k.compare(c, tree, fixed.Print(tree), "tree")
+			k.compare(c, twin, fixed.Print(twin), "tree / twin differing in the letter case inside literals")
+		}
+	}
+}
+
+func c15SwapCase(s string) string {
+	b := []byte(s)
+	for i, ch := range b {
+		switch {
+		case ch >= 'a' && ch <= 'z':
+			b[i] = ch - 32
+		case ch >= 'A' && ch <= 'Z':
+			b[i] = ch + 32
+		}
+	}
+	return string(b)
 }
 
 // tightAfterLiteral: an operator written directly after a closing quote, the literal ending
@@ -548,16 +582,21 @@ func (k c15) namedFieldFixpoint(c *rt.Ctx) {
 // shownFilter: "the filter shown by EXPLAIN is the filter executed". The statement is planned
 // (constants are folded on the way), the filter text shown by the scan line of Explain() is put
 // into a second statement, and both must select the same rows; the second statement's own shown
-// filter must be the same text. Constants are positive and their results not integral, so that
-// the shown literals are spellings the language has (no unary minus, no `3` for the float 3.0:
-// register B20).
+// filter must be the same text. Constants are positive, so that the shown literals are spellings
+// the language has (there is no unary minus: register B20).
 func (k c15) shownFilter(c *rt.Ctx) {
 	r := c.R
 	rec := c.Rec
 	odd := func() *gen.Node { return gen.Int(int64(2*r.Intn(5) + 1)) }
 	half := func() *gen.Node { return gen.Float([]string{"0.5", "1.5", "2.5", "3.5"}[r.Intn(4)]) }
 	konst := func() *gen.Node {
-		switch r.Intn(6) {
+		switch r.Intn(9) {
+		case 6: // a whole float: shown with a spelling that is still a float literal
+			return gen.Bin("+", half(), half())
+		case 7:
+			return gen.Bin("*", gen.Int(int64(2*r.Range(1, 4))), half())
+		case 8:
+			return gen.Bin("*", gen.Float("2.0"), gen.Float([]string{"1.0", "3.0", "4.0"}[r.Intn(3)]))
 		case 0:
 			return gen.Bin("+", odd(), half())
 		case 1:
@@ -580,6 +619,10 @@ func (k c15) shownFilter(c *rt.Ctx) {
 		if r.Chance(1, 4) {
 			return gen.Bin(op, gen.Bin("+", left, konst()), konst())
 		}
+		if r.Chance(1, 3) {
+			// integer or float division, depending on the kind of the folded constant
+			return gen.Bin(op, gen.Bin("/", left, konst()), konst())
+		}
 		return gen.Bin(op, left, konst())
 	}
 	tree := atom()
@@ -590,6 +633,23 @@ func (k c15) shownFilter(c *rt.Ctx) {
 		tree = gen.Or(tree, gen.Bin("!=", gen.Value(), gen.Str("zz")))
 	case 2:
 		tree = gen.Or(gen.Not(tree), atom())
+	}
+	if r.Chance(1, 3) {
+		// a constant operand of the outermost & or | (either side): it is simplified away, a
+		// Boolean literal left standing there would be a filter the language does not accept
+		rec.Inc("shown_filter_constant_conjunct")
+		yes := []*gen.Node{gen.Bin("=", gen.Int(1), gen.Int(1)), gen.Bin(">", gen.Int(2), gen.Int(1)), gen.Bin("=", gen.Bin("+", gen.Str("a"), gen.Str("b")), gen.Str("ab")), gen.Call("is_int", gen.Str("12"))}[r.Intn(4)]
+		no := []*gen.Node{gen.Bin("<", gen.Int(2), gen.Int(1)), gen.Bin("=", gen.Str("a"), gen.Str("b")), gen.Call("is_int", gen.Str("x"))}[r.Intn(3)]
+		switch r.Intn(4) {
+		case 0:
+			tree = gen.And(yes, tree)
+		case 1:
+			tree = gen.And(tree, yes)
+		case 2:
+			tree = gen.Or(no, tree)
+		default:
+			tree = gen.Or(tree, no)
+		}
 	}
 	var pairs []refstore.Pair
 	for i := 0; i < 12; i++ {
